@@ -159,18 +159,21 @@ func shrinkInit(sc *Scenario) []*Scenario {
 	if n == 0 {
 		return nil
 	}
-	// halves, quarters, then singles
+	// halves, quarters, ... singles; candidates share everything but the Init
+	// slice with sc (statement texts of megabytes are not copied), and no more
+	// than about 130 are proposed per round: a large store loses big chunks first
+	// and reaches the single-pair rounds once it is small
 	for chunk := n / 2; chunk >= 1; chunk /= 2 {
 		for from := 0; from < n; from += chunk {
 			to := from + chunk
 			if to > n {
 				to = n
 			}
-			c := cloneScenario(sc)
-			c.Init = append(append([]KV{}, sc.Init[:from]...), sc.Init[to:]...)
-			out = append(out, c)
+			c := *sc
+			c.Init = append(append(make([]KV, 0, n-(to-from)), sc.Init[:from]...), sc.Init[to:]...)
+			out = append(out, &c)
 		}
-		if chunk == 1 {
+		if chunk == 1 || len(out) > 130 {
 			break
 		}
 	}
